@@ -401,7 +401,8 @@ def uniform(data: ttb.tensor, samples: int) -> sample_type:
         ).astype(int)
         - 1
     )
-    vals = data[subs]
+    # One value per sample (sptensor indexing returns a column, a single sample a scalar)
+    vals = np.asarray(data[subs]).reshape((samples,))
     wgts = (np.prod(data.shape) / samples) * np.ones((samples,))
     return subs, vals, wgts
 
